@@ -95,6 +95,8 @@ class Lockstep:
             self.gateway.protocol_version = case["version"]
             self.model.set_version_directly(case["version"])
         self.transport.fail_attempts = set(case.get("faults") or ())
+        if case.get("fault_class"):
+            self.transport.fault_class = case["fault_class"]
         if case.get("fail19"):
             # fail the k-th write attempt of a presentation request (internal type 19)
             wanted = set(case["fail19"])
@@ -142,6 +144,10 @@ class Lockstep:
                 self.model.flag(op[1], op[2], op[3])
             elif kind == "restore":
                 self.restore(op[1], op[2])
+            elif kind == "forget":
+                # the application removes a node from the public registry (decommissioned device); its id is free again
+                self.gateway.nodes.pop(op[1], None)
+                self.model.forget(op[1])
             elif kind == "config":
                 setattr(self.gateway.config, op[1], op[2])  # the application changes the public Config of a live gateway
                 if op[1] == "metric":
